@@ -14,9 +14,10 @@ def parse_model_dump(line):
     if mgr == 'nouow':
         d['mgr'] = None
     else:
-        _, cur, ops, vobjs, pending = mgr.split(' ')
+        _, cur, ops, vobjs, pending, lookup = mgr.split(' ')
         d['mgr'] = {'cur': None if cur == 'N' else int(cur), 'ops': [] if ops == '-' else ops.split(';'),
-                    'vobjs': sorted([] if vobjs == '-' else vobjs.split(';')), 'pending': int(pending)}
+                    'vobjs': sorted([] if vobjs == '-' else vobjs.split(';')), 'pending': int(pending),
+                    'lookup': lookup == '1'}
     return d
 
 
@@ -24,7 +25,8 @@ def impl_sections(marker):
     m = marker['mgr']
     d = {'versions': marker['versions'], 'txs': marker['txs'], 'assoc': marker['assoc'], 'changes': marker['changes']}
     if 'cur' in m:
-        d['mgr'] = {'cur': m['cur'], 'ops': m['ops'], 'vobjs': m['vobjs'], 'pending': m['pending']}
+        d['mgr'] = {'cur': m['cur'], 'ops': m['ops'], 'vobjs': m['vobjs'], 'pending': m['pending'],
+                    'lookup': bool(m.get('lookup'))}
     else:
         d['mgr'] = None
     return d
